@@ -47,12 +47,12 @@ var Ns = eval.BuildNsNamed("os").
 
 // Wraps [os.IsNotExist] to operate on Exception values.
 func isExist(e eval.Exception) bool {
-	return os.IsExist(e.Reason())
+	return e != nil && os.IsExist(e.Reason())
 }
 
 // Wraps [os.IsNotExist] to operate on Exception values.
 func isNotExist(e eval.Exception) bool {
-	return os.IsNotExist(e.Reason())
+	return e != nil && os.IsNotExist(e.Reason())
 }
 
 type mkdirOpts struct{ Perm int }
